@@ -55,6 +55,7 @@ def run(tier, PROP):
     if PROP == "C05":
         import c18
         modules += c18.GROW_CONTENT_MODULES                      # memory.grow: contents of the new pages (Props/C05Grow)
+        modules += ["W2c2Verif.Props.C05Sim"]                    # memOK_concrete: C05's functions discharge the simulation's memory hypothesis
         gens += [("MemFuncs", "gen_memfuncs"), ("EmitTable", "gen_emit"), ("Literals", "gen_literals")]
     pr = prove(chk, modules, gens)
     broken = [e for e in pr["errors"]] if not pr["build_ok"] else []
